@@ -4,7 +4,7 @@ From Coq Require Import Reals List Lra.
 From Coq Require Import QArith Qcanon.
 From Coquelicot Require Import Complex.
 From AL Require Import Base.CaseLib C13.Model C13.Spec C13.Check C13.Proofs_Base C13.Proofs_Ord2 C13.Proofs_Reson2
-  C13.Proofs_Comb C13.Proofs_Gamma C13.Proofs_Examples C13.Proofs_Shape.
+  C13.Proofs_Comb C13.Proofs_Gamma C13.Proofs_Examples C13.Proofs_Shape C13.Proofs_SampledNZ.
 Import ListNotations.
 Open Scope R_scope.
 
@@ -110,9 +110,28 @@ Theorem C13_gammatone_klapuri_sections : forall freq bw, 0 < freq < PI -> 0 < bw
 Proof. exact gammatone_klapuri_sections. Qed.
 Print Assumptions C13_gammatone_klapuri_sections.
 
-(* sampled: eta sections, all stable with pole radius exp(-bw); sections 2..eta have unit gain;
-   the first has unit gain IF REACHABLE, i.e. if its numerator does not vanish at e^{-j freq}
-   (PARTIAL: that the numerator produced by diff() never vanishes there is not proved) *)
+(* sampled, eta = 1, 2, 3, 4 (4 is the default), every phase: eta sections, EVERY one stable, with pole
+   radius exp(-bw) and unit gain at freq.  The first section's numerator (the (eta-1)-fold derivative)
+   does not vanish at e^{-j freq}: it is 1/2 [q E(A)(1 - A e^{-2jw})^eta + q~ E(A e^{-2jw})(1 - A)^eta]
+   with E the Eulerian polynomial, whose first term is strictly bigger in modulus. *)
+Theorem C13_gammatone_sampled_sections_eta_le_4 : forall freq bw phase eta,
+  0 < freq < PI -> 0 < bw -> (1 <= eta <= 4)%nat ->
+  length (gammatone_sampled freq bw phase eta) = eta /\
+  Forall (fun f => stable f /\ unit_gain_at f freq /\ poles_have_modulus f (exp (- bw)))
+         (gammatone_sampled freq bw phase eta).
+Proof. exact gammatone_sampled_sections_eta_le_4. Qed.
+Print Assumptions C13_gammatone_sampled_sections_eta_le_4.
+
+Theorem C13_gammatone_sampled_numerator_nonzero : forall freq bw phase eta,
+  0 < freq < PI -> 0 < bw -> (1 <= eta <= 4)%nat ->
+  ceval (sampled_num freq bw phase eta) (cis (- freq)) <> RtoC 0.
+Proof. exact sampled_num_nz. Qed.
+Print Assumptions C13_gammatone_sampled_numerator_nonzero.
+
+(* sampled, every eta >= 1: all sections stable with pole radius exp(-bw); sections 2..eta have unit
+   gain; the first has unit gain IF REACHABLE, i.e. if its numerator does not vanish at e^{-j freq}
+   (PARTIAL for eta >= 5 only: non-vanishing is proved above for eta = 1..4; for eta = 5, 6, ... the
+   same argument needs the Eulerian polynomial of that order and is not done) *)
 Theorem C13_gammatone_sampled_sections_partial : forall freq bw phase eta, 0 < bw -> (1 <= eta)%nat ->
   length (gammatone_sampled freq bw phase eta) = eta /\
   Forall (fun f => stable f /\ poles_have_modulus f (exp (- bw))) (gammatone_sampled freq bw phase eta) /\
